@@ -115,12 +115,27 @@ class SimFile:
 
 
 class SimShelf(dict):
-    """Stands in for `shelve.open(...)` (protocol `dd._copy._Shelf`)."""
+    """Stands in for `shelve.open(...)` (protocol `dd._copy._Shelf`).
 
-    def __init__(self, fs):
+    Like a real shelf it is persistent: opening the same path again (flag
+    'c', the default of `shelve.open`) finds what an earlier writer left,
+    until the directory that holds it is removed.
+    """
+
+    def __init__(self, fs, name=None):
         super().__init__()
         self.fs = fs
         self.nset = 0
+        self.name = name
+        if name is not None:
+            d = os_dirname(name)
+            if d and d not in fs.dirs:
+                raise FileNotFoundError(errno.ENOENT, 'No such file or directory', name)
+            self.update(fs.shelves.get(name, {}))
+
+    def _persist(self):
+        if self.name is not None:
+            self.fs.shelves[self.name] = dict(self)
 
     def __enter__(self):
         return self
@@ -137,6 +152,11 @@ class SimShelf(dict):
                 raise OSError(f.err, _real_os.strerror(f.err))
         self.nset += 1
         super().__setitem__(k, v)
+        self._persist()
+
+
+def os_dirname(p):
+    return _real_os.path.dirname(p)
 
 
 class _OsFacade:
@@ -145,8 +165,10 @@ class _OsFacade:
         self.path = _real_os.path
         self.sysconf_names = {}
 
-    def makedirs(self, d, *a, **kw):
+    def makedirs(self, d, mode=0o777, exist_ok=False):
         if d in self.fs.dirs:
+            if exist_ok:
+                return
             raise FileExistsError(errno.EEXIST, 'File exists', d)
         self.fs.dirs.add(d)
 
@@ -159,6 +181,8 @@ class _ShutilFacade:
         if d not in self.fs.dirs:
             raise FileNotFoundError(errno.ENOENT, 'No such directory', d)
         self.fs.dirs.discard(d)
+        for name in [n for n in self.fs.shelves if n.startswith(d + '/')]:
+            del self.fs.shelves[name]
 
 
 class _Completed:
@@ -199,6 +223,7 @@ class SimFS:
     def __init__(self):
         self.files = {}
         self.dirs = set()
+        self.shelves = {}
         self.fault = None
         self.dot_inputs = []
         self.stats = dict(
@@ -240,7 +265,7 @@ class SimFS:
         put(D.dddmp, 'open', self.open)
         put(D.copy, 'os', _OsFacade(self))
         put(D.copy, 'shutil', _ShutilFacade(self))
-        put(D.copy, '_open_shelf', lambda name: SimShelf(fs))
+        put(D.copy, '_open_shelf', lambda name: SimShelf(fs, name))
         put(D.utils, '_sbp', _SbpFacade(self))
 
     def unbind(self):
